@@ -459,7 +459,7 @@ def doCount (c : Cfg) (s : BState) (key stop : Bytes) : ScanRes (Nat × Nat) :=
 /-- `Backend.Get`. -/
 def doGet (c : Cfg) (s : BState) (key : Bytes) (rev : Nat) : Nat × Option (Bytes × Bytes × Nat) :=
   match bget c s.store key rev with
-  | .notFound _ => (s.committed, none)
+  | .notFound m => (max s.committed m, none)   -- a deletion above the committed revision raises the header
   | .found v m => (max s.committed m, some (key, v, m))
 
 /-- `alignPartitionBorder`: an object key with a non-zero revision is moved back to the index key of
